@@ -305,11 +305,16 @@ prop("C08", [
               "thorough": ["--d1=7", "--d2=6", "--faults=0", "--timeout-ms=600000", "--deadline-s=2400"]}},
     {"name": "c08_faults", "sources": ["c08_lifecycle.cc"], "c_sources": ["common/netgate.c"], "flavour": "asan",
      "args": {"thorough": ["--d1=7", "--d2=0", "--faults=1", "--tick=1000", "--timeout-ms=600000", "--deadline-s=1500"]}},
+    {"name": "c08_files", "sources": ["c08_lifecycle.cc"], "c_sources": ["common/netgate.c"], "flavour": "asan",
+     "args": {"quick": ["--files=1", "--d1=5", "--d2=0", "--faults=1", "--tick=1000", "--timeout-ms=120000", "--deadline-s=170"],
+              "thorough": ["--files=1", "--d1=6", "--d2=4", "--faults=1", "--tick=1000", "--timeout-ms=600000", "--deadline-s=1500"]}},
 ],
     rule="one case = a block of 16 client-event histories; history alphabet per connection: connect, send first half "
          "of a request, send the rest, send a whole request, read, close, shutdown(WR), abortive close (RST), the "
          "composites send+close / send+shutdown / send+RST with no server step in between (data and FIN in one wake-up), plus "
-         "tick(+500 ms) (thorough second part: + hold / release of the server's writes on that connection); all "
+         "tick(+500 ms) (thorough second part: + hold / release of the server's writes on that connection; files part: "
+         "every response is a file sent with Http::serveFile and hold stalls only sendfile(), so a file body is left "
+         "waiting while the client goes away); all "
          "histories up to depth d1 on one connection and d2 on two connections (second connection only after the "
          "first: symmetry), each followed by 'all clients close, 6 ticks, run loops dry'; executed on a real "
          "Http::Endpoint (acceptor + 1 worker gated at epoll_wait, virtual time, header/body time-outs 1 s / 2 s) "
@@ -318,7 +323,8 @@ prop("C08", [
     assumptions=COMMON_ASSUME + ["real loopback TCP: after each client action the harness waits (bounded) for the "
                                  "kernel to make a loop ready; a late kernel effect would show as harness nondeterminism, "
                                  "not as a verdict"],
-    bounds={"quick": "depth 5 (1 connection), 4 (2 connections)", "thorough": "depth 7 / 6, and depth 6 with write faults"})
+    bounds={"quick": "depth 5 (1 connection), 4 (2 connections); file responses with write faults: depth 5 on one connection",
+            "thorough": "depth 7 / 6, depth 7 with write faults, file responses with write faults depth 6 / 4"})
 
 prop("C14", [
     {"name": "c14_limits", "sources": ["c14_limits.cc"], "c_sources": ["common/netgate.c"], "flavour": "asan",
